@@ -646,7 +646,8 @@ class C03(Prop):
                   "(add_array, string join, absorb / compose_mapping) are compared on generated self / aliased operand programs only "
                   "(no heap model); shift counts outside 0..63 are outside the model")
     rule = ("cases = corpus + known-finding inputs + boundary list + seeded random cases from 23 families (binary/unary "
-            "operators, op=, ++/--, index, range, index/range/char lvalues, integer / nested / string switches, loops, local / "
+            "operators, op=, ++/--, index, range, index/range/char lvalues, integer / nested / string switches, trees of degenerate "
+            "switches (only default, single case, default anywhere, siblings, three levels), loops, local / "
             "inherited / function-pointer calls, macros vs hand expansion, literals, zero-comparison rewrites, mapping algebra "
             "around every growMap threshold, self-operand / aliased-operand / freshness forms of the container and string operators "
             "(x op= x, x = x op x, a second reference held before, the alias as operand; local, global, array element, mapping value), "
